@@ -9,7 +9,7 @@ class C14(SCheck):
     level = "exploration"
     default_seed = 14014
     N = {"quick": 250, "thorough": 8000}
-    K = {"quick": 2, "thorough": 4}
+    K = {"quick": 3, "thorough": 4}
     technique = "deterministic simulation: seeded schedules, snapshot oracle (node type, rdev, mode) + supervisor trace (no open/read of a special source)"
     rule = ("case = FIFOs / sockets / character devices with random (major, minor) and modes, as sole source or inside a tree, umask in {0,022}, "
             "fresh or existing destination entry, optionally --no-clobber, block devices (must fail); x driver x schedules; non-trivial = at "
@@ -21,14 +21,14 @@ class C14(SCheck):
         umask = r.choice([0, 0o022])
         ops = [gen.d_op("src")]
         specials = []
-        n = r.randrange(1, 4)
+        n = r.randrange(1, 6)  # several nodes per run: helpers that touch process-wide state (umask) meet each other
         sub = r.random() < 0.4
         if sub:
             ops.append(gen.d_op("src/sub"))
         for i in range(n):
             k = r.choice(["fifo", "sock", "chr", "chr"])
             p = ("src/sub/" if sub and r.random() < 0.5 else "src/") + "n%d" % i
-            ops.append(gen.n_op(p, k, r.randrange(0, 4096), r.randrange(0, 1 << 20), r.choice([0o644, 0o600, 0o666, 0o620, 0o4755, 0o777])))
+            ops.append(gen.n_op(p, k, r.randrange(0, 4096), r.randrange(0, 1 << 20), r.choice([0o644, 0o600, 0o666, 0o620, 0o4755, 0o777, 0o666, 0o660])))
             specials.append(p)
         if r.random() < 0.5:
             ops.append(gen.f_op("src/plain", r.randrange(0, 5000), pat=7))
@@ -60,6 +60,16 @@ class C14(SCheck):
                 ops.append(gen.n_op("dst/" + v, r.choice(["fifo", "sock"]), 0, 0, 0o600))
         inv = gen.mk_inv(srcs, dest, driver=driver, workers=workers, block_size=bs, **flags)
         return {"setup": ops, "steps": [{"inv": inv}], "umask": umask}
+
+    FAULT_N = {"quick": 4, "thorough": 40}
+
+    def fault_site(self, ev, case):
+        # a refused node creation must fail the run or leave a correct node, whatever fallback there is
+        return ev["c"] in ("mknod", "mknodat", "unlink", "unlinkat")
+
+    def fault_errnos(self, ev):
+        from ..fcheck import errnos_for
+        return errnos_for(ev) + (["EOPNOTSUPP", "ENOSYS"] if ev["c"].startswith("mknod") else [])
 
     def evaluate(self, res, verdict, case, step_i, t0, plan):
         f = super().evaluate(res, verdict, case, step_i, t0, plan)
